@@ -114,15 +114,19 @@ CLAIMED = {
         "calls, any number of them) no writer call of any program panics -- neither the call a failure strikes, nor any "
         "later call, nor finish, nor the final drop (C11_no_panic_under_faults, from the writer invariant of "
         "Proofs/WriterInv.v, for every compressor/checksum function and every call list); a failing sink call is an error "
-        "of the primitive that leaves the bytes alone, and no sink primitive ever yields a panic.  'Error or identical "
-        "result' is carried by the correspondence: for 19 (thorough 160+) writer scenarios mixing all entry kinds, "
+        "of the primitive that leaves the bytes alone, and no sink primitive ever yields a panic.  READER side: the entry "
+        "reader stack of a stored entry (plain or ZipCrypto) over a source with an ARBITRARY plan of short reads and "
+        "failures: under every schedule of buffer sizes the bytes delivered before the first error are a prefix of the true "
+        "content, a read reaching a clean end of file delivered exactly the true content, and a corrupted entry never "
+        "completes -- an I/O failure surfaces as an error or as the failure-free result, never as other bytes.  For the "
+        "writer 'error or identical result' is carried by the correspondence: for 19 (thorough 160+) writer scenarios mixing all entry kinds, "
         "methods, extra data, alignment, ZipCrypto, raw copy, append, finish/drop and calls after finish, the k-th sink "
         "call fails for EVERY k below the failure-free call count and the crate's per-call results and final sink bytes "
         "equal the model's under the same plan (incl. the encoders' drop-time retry); reader scenarios (all methods, ZIP64, "
         "ZipCrypto, AE-1/2, data descriptors, prefix, nested and concatenated archives, fake end record in the comment) and "
         "open-for-append scenarios with the k-th source/device call failing for every k; oracle everywhere: no panic now or "
         "later, and either some call reported an error or the outcome equals the failure-free one (found and fixed D20).",
-   note="Trusted: Coq kernel, extraction+driver, harness (fault-injecting sink/source/device), genzip.py. PARTIAL: 'a failure is never swallowed' (error-or-identical) is decided per enumerated fault, not proved; reader-side and append-open faults are decided on the implementation by the oracle only (the reader model has no failing source).",
+   note="Trusted: Coq kernel, extraction+driver, harness (fault-injecting sink/source/device), genzip.py. PARTIAL: for the writer 'a failure is never swallowed' (error-or-identical) is decided per enumerated fault, not proved; faults during open / new_append (directory parsing over a failing source) and in the AES / decompressing layers are decided on the implementation by the oracle only.",
    technique="Coq proof (no writer call panics under any failure plan: state-machine invariant) + exhaustive single-fault enumeration compared call-by-call with the plan-driven writer model",
    design="8 (C11), 13"),
  "C20": dict(
